@@ -430,8 +430,9 @@ class World:
     def model_comps(self, comps):
         return [self.unnames.get(comps[0], comps[0])] + list(comps[1:]) if comps else comps
 
-    def project(self, name, first=False):
-        """A Project object for model root `name`, obtained the way the provenance policy says."""
+    def project(self, name, first=False, mode=None):
+        """A Project object for model root `name`, obtained the way the provenance policy says (or the way the op asks
+        for: ["NewSession", root, mode])."""
         import signac
         path = os.path.join(self.root, self.real(name))
         if self.prov_rng is None:
@@ -444,7 +445,7 @@ class World:
         rel = os.path.relpath(path, here)
         modes = ["init-abs", "init-rel"] if first else ["ctor-abs", "get-abs", "get-rel", "ctor-rel", "ctor-rel", "dotdot",
                                                          "slash", "init-rel", "rel-slash", "ctor-none", "get-none"]
-        mode = self.prov_rng.choice(modes)
+        mode = self.prov_rng.choice(modes) if mode is None or first else mode
         self.prov_log.append([name, mode, os.path.relpath(os.getcwd(), os.path.dirname(self.root))])
         if mode in ("ctor-none", "get-none"):
             # no path argument at all: the project of the current working directory (Project.__init__: path = os.getcwd())
@@ -593,7 +594,7 @@ class World:
                     # the config directory is not part of the model: its creation must not count as a mutation
                     self.prev_sig = None
                 else:
-                    p = self.project(op[1])
+                    p = self.project(op[1], mode=op[2] if len(op) > 2 else None)
                 self.sessions.append(p)
                 self.proj_names[id(p)] = op[1]
                 if op[1] not in self.roots:
